@@ -245,6 +245,18 @@ def run(e: Engine, rep: Report):
              'the message the session ends (what is left of the body is '
              'never answered line by line, nor waited for)')
     c09.g5(e, rep, 'R7.13')
+    rep.rule('R7.14', 'the pattern MAIL takes its path with rejects the '
+             'keyword of RCPT and the other way round (regex syntax tree '
+             'run on the literal the client writes for the other verb): '
+             '`MAIL TO:<x>` / `RCPT FROM:<x>` are malformed and never reach '
+             'a callback')
+    from . import c06
+    c06.cross_keywords(e, rep, 'R7.14')
+    rep.rule('R7.15', 'the command reader hands back (or gives up) only at '
+             'a line end: every return of IO.recv_line lies where the line '
+             'search has succeeded, so what is left in the buffer starts a '
+             'new command line (one line, one reply)')
+    r715(e, rep)
     rep.floor('R7.1', 10, 'callback sites')
     rep.floor('R7.3', 12, 'command handlers')
     rep.floor('R7.4', 10, 'mutable reply sends')
@@ -1190,3 +1202,98 @@ def r712(e: Engine, rep: Report):
     if n < 2:
         rep.error('anchor vanished: except arms around the dispatch in '
                   'Server.handle (%d < 2)' % n)
+
+
+# ------------------------------------------------------------------ R7.15
+def _two_point(test, name, lo, hi):
+    """outcome of a pure test on `name` at the two values, or None"""
+    ok = (ast.Compare, ast.UnaryOp, ast.BoolOp, ast.BinOp, ast.Constant,
+          ast.Name, ast.operator, ast.unaryop, ast.boolop, ast.cmpop,
+          ast.expr_context)
+    for x in ast.walk(test):
+        if not isinstance(x, ok) or (isinstance(x, ast.Name) and
+                                     x.id != name):
+            return None
+    out = []
+    for v in (lo, hi):
+        try:
+            out.append(bool(eval(compile(ast.Expression(test), '<t>',
+                                         'eval'), {'__builtins__': {}},
+                                 {name: v})))
+        except Exception:
+            return None
+    return tuple(out)
+
+
+def r715(e: Engine, rep: Report):
+    ctx = e.method_ctx('slimta.smtp.io.IO', 'recv_line')
+    g = e.build(ctx, inline=e.inline_same_self(deny=['buffered_recv']),
+                max_depth=3, raises=lambda b, n, r: set())
+    where = ctx.func.qname
+    rep.functions.add(where)
+    # names that say "a complete line is in the buffer": kind by name
+    found = {}
+    for st in g.of_kind('stmt'):
+        a = st.ast
+        if not (isinstance(a, ast.Assign) and len(a.targets) == 1 and
+                isinstance(a.value, ast.Call) and
+                isinstance(a.value.func, ast.Attribute)):
+            continue
+        t, meth = a.targets[0], a.value.func.attr
+        if isinstance(t, ast.Name) and meth in ('match', 'search',
+                                                'fullmatch'):
+            found[t.id] = 'truthy'
+        elif isinstance(t, ast.Name) and meth in ('find', 'rfind'):
+            found[t.id] = 'index'
+        elif isinstance(t, (ast.Tuple, ast.List)) and \
+                meth in ('partition', 'rpartition') and len(t.elts) == 3 \
+                and isinstance(t.elts[1], ast.Name):
+            found[t.elts[1].id] = 'truthy'
+    rets = [n for n in g.of_kind('stmt') if isinstance(n.ast, ast.Return)
+            and n.frame is g.entry.frame]
+    if not found or not rets:
+        rep.unknown('R7.15', where, 'returns lie at a line end',
+                    'cannot see how recv_line finds the end of a line',
+                    loc=ctx.func.loc())
+        return
+
+    def establishes(n, label):
+        """does this test edge say that a line end was found?"""
+        for nm, kind in found.items():
+            if kind == 'truthy':
+                key = canon(ast.Name(id=nm, ctx=ast.Load()), n.frame)
+                for p0, k0 in atoms_of_test(n.ast, label == 'T', n.frame):
+                    if (p0, k0) in ((True, key), (False, key + ' is None')):
+                        return True
+            else:
+                tp = _two_point(n.ast, nm, -1, 0)
+                if tp == (False, True) and label == 'T':
+                    return True
+                if tp == (True, False) and label == 'F':
+                    return True
+        return False
+
+    def step(n, label, st):
+        if isinstance(label, tuple):
+            return st
+        if n.kind == 'stmt' and isinstance(n.ast, ast.Assign) and any(
+                isinstance(x, ast.Name) and x.id in found
+                for t in n.ast.targets for x in ast.walk(t)):
+            return False
+        if n.kind == 'test' and label in ('T', 'F') and \
+                establishes(n, label):
+            return True
+        return st
+    for r in rets:
+        rep.evaluations += 1
+        w = dataflow.typestate_witness(g, False, step,
+                                       lambda n, st: n is r and not st)
+        rep.check(w is None, 'R7.15', where,
+                  '`%s` lies at a line end' % ' '.join(
+                      ast.unparse(r.ast).split())[:40],
+                  'recv_line returns here without having found the end of '
+                  'a line: what the client sends next - the rest of the '
+                  'same command line - is read as a command of its own and '
+                  'answered (or executed) a second time', loc=r.loc(),
+                  reason='the line search has succeeded on every path here',
+                  witness=dataflow.render_path(w, 12) if w else None)
